@@ -167,6 +167,14 @@ class Compare(Case):
             for n in (0, 1, 2):
                 for cells in itertools.product(alpha, repeat=K * n):
                     yield {"n": n, "vectors": [list(cells[q * n : (q + 1) * n]) for q in range(K)]}
+        # values that are not flags but turn into one when narrowed to a small integer type (fractions, codes
+        # congruent to a flag modulo 256, negatives): they take no part in the roll-up
+        odd = (3.5, 4.25, 2.5, 9.75, 1.5, 260, 259, 265, 258, 257, -252, -253, -247, 0, -1)
+        for i in range(0, len(odd), 3):
+            row = list(odd[i : i + 3])
+            yield {"n": 3, "vectors": [row], "keep": 1}
+            yield {"n": 3, "vectors": [[1, 1, 1], row], "keep": 1}
+            yield {"n": 3, "vectors": [row, [1, 2, ("m", 4)], row], "keep": 1}
 
 
 def cases():
